@@ -56,6 +56,8 @@ pub struct Found {
     pub property: &'static str,
     pub sig: String,
     pub detail: String,
+    /// Findings of one observed event (one response, one stats comparison) share a group.
+    pub group: u64,
 }
 
 #[derive(Default)]
@@ -70,6 +72,7 @@ pub struct Model {
     pub in_window_steps: u64,
     pub expiries_crossed: u64,
     pub all_ids: BTreeMap<String, String>, // message id -> tag (global uniqueness)
+    pub event: u64,
 }
 
 pub fn effective_deadline(requested: i32) -> u64 {
@@ -90,6 +93,7 @@ impl Model {
             property,
             sig: sig.into(),
             detail: detail.into(),
+            group: self.event,
         });
     }
 
@@ -168,6 +172,7 @@ impl Model {
 
     /// A Publish returned `ids` for `tags` on `topic`.
     pub fn published(&mut self, topic: &str, tags: &[String], ids: &[String]) {
+        self.event += 1;
         if ids.len() != tags.len() {
             self.flag("C08", "C08:ids-length", format!("Publish of {} messages returned {} ids", tags.len(), ids.len()));
         }
@@ -237,6 +242,7 @@ impl Model {
     /// `max`: batch limit if positive. `t_call`/`now`: call and return instants.
     #[allow(clippy::too_many_arguments)]
     pub fn pulled(&mut self, sub: &str, items: &[(String, String, String)], max: i64, blocking: bool, t_call: Vt, now: Vt, via: Via) {
+        self.event += 1;
         // the state at call time decides what a blocking pull owed us
         let owed_at = if blocking { self.earliest_certain(sub, t_call) } else { None };
         let certain_at_call = self.certain_count(sub);
@@ -410,6 +416,7 @@ impl Model {
     /// Compares hook stats with the model for every subscription that has no
     /// lease in its expiry window and nothing uncertain.
     pub fn check_stats(&mut self, now: Vt, stats: &BTreeMap<String, SubStat>, after: &str) {
+        self.event += 1;
         self.advance(now);
         let names: Vec<String> = self.subs.keys().cloned().collect();
         for n in names {
